@@ -424,6 +424,17 @@ pub fn run_c09(ctx: &Ctx, st: &mut Local) {
         if acc(&rr) {
             *st.sums.entry(format!("{}:accepted_ref", fam)).or_insert(0) += 1;
         }
+        if eng == "E6" {
+            if let Some(t) = c.descr.split(' ').find(|w| w.starts_with("text")) {
+                *st.sums.entry(format!("accgroup|{}|{}|n", fam, t)).or_insert(0) += 1;
+                if acc(&rc) {
+                    *st.sums.entry(format!("accgroup|{}|{}|cur", fam, t)).or_insert(0) += 1;
+                }
+                if acc(&rr) {
+                    *st.sums.entry(format!("accgroup|{}|{}|ref", fam, t)).or_insert(0) += 1;
+                }
+            }
+        }
         if let (Ok(Ok(a)), Ok(Ok(b))) = (&rc, &rr) {
             *st.sums.entry(format!("{}:corr_cur", fam)).or_insert(0) += a.corr.len() as u64;
             *st.sums.entry(format!("{}:corr_ref", fam)).or_insert(0) += b.corr.len() as u64;
@@ -490,6 +501,26 @@ pub fn finalize_c09(total: &mut Local) {
             });
         }
     }
+    // acceptance per (family, plaintext), for groups of at least 50 streams (1 % of a smaller group is less than one stream)
+    let agroups: Vec<String> = total.sums.keys().filter(|k| k.starts_with("accgroup|") && k.ends_with("|n")).cloned().collect();
+    let mut nacc = 0;
+    for k in agroups {
+        let base = &k[..k.len() - 1];
+        let g = |s: &str| *total.sums.get(&format!("{}{}", base, s)).unwrap_or(&0);
+        let (n, ac, ar) = (g("n"), g("cur"), g("ref"));
+        if n < 50 {
+            continue;
+        }
+        nacc += 1;
+        if (ac as f64) < 0.99 * ar as f64 {
+            let parts: Vec<&str> = k.split('|').collect();
+            total.viols.push(Viol {
+                property: "C09".into(), engine: "aggregate".into(), index: 0, class: format!("aggregate:acceptance-regressed:{}:{}", parts[1], parts[2]),
+                panic_site: None, detail: format!("{} on plaintext {}: {} streams, accepted cur {} ref {}", parts[1], parts[2], n, ac, ar), input_hex: String::new(),
+            });
+        }
+    }
+    total.eng("E6").notes.push(format!("{} (family, plaintext) groups of >= 50 streams judged with the 1% acceptance bound", nacc));
     total.eng("E6").notes.push(format!("{} (family or zlib level, plaintext) groups judged with the same 3% bound (+16 bytes); cur/ref bytes of the family groups: {}", ngroups, table.trim_end()));
 }
 
